@@ -755,6 +755,8 @@ package kcp
 //@   modifies nothing
 //
 //@ func UDPSession.kcpInput counted
+//@   callsite dyn:OOBCallBackType requires @C19 [the-handler-gets-exactly-the-payload-of-the-packet-same-bytes-same-length] len(arg0) == len(data) - 12
+//@        && (forall j int :: 0 <= j && j < len(arg0) ==> arg0[j] == data[12 + j])
 //@   callsite fecDecoder.decode requires @C16 @C07 [packets-are-decoded-by-the-sessions-own-decoder-which-persists-across-calls] arg_dec == s.fecDecoder
 //@   requires s.imm() && 12 <= len(data) && len(data) <= 1500
 //@   requires @C06 [integrity-gate] gate(s.block, data)
